@@ -134,6 +134,106 @@ func clientCall(key int16) func(ctx context.Context, tr *kafka.Transport) error 
 			_, err := cl(tr).DeleteGroups(ctx, &kafka.DeleteGroupsRequest{GroupIDs: []string{"g"}})
 			return err
 		}
+	case 24:
+		return func(ctx context.Context, tr *kafka.Transport) error {
+			_, err := cl(tr).AddPartitionsToTxn(ctx, &kafka.AddPartitionsToTxnRequest{TransactionalID: "g", ProducerID: 1, Topics: map[string][]kafka.AddPartitionToTxn{"t": {{Partition: 0}}}})
+			return err
+		}
+	case 25:
+		return func(ctx context.Context, tr *kafka.Transport) error {
+			_, err := cl(tr).AddOffsetsToTxn(ctx, &kafka.AddOffsetsToTxnRequest{TransactionalID: "g", ProducerID: 1, GroupID: "g"})
+			return err
+		}
+	case 26:
+		return func(ctx context.Context, tr *kafka.Transport) error {
+			_, err := cl(tr).EndTxn(ctx, &kafka.EndTxnRequest{TransactionalID: "g", ProducerID: 1, Committed: true})
+			return err
+		}
+	case 28:
+		return func(ctx context.Context, tr *kafka.Transport) error {
+			_, err := cl(tr).TxnOffsetCommit(ctx, &kafka.TxnOffsetCommitRequest{TransactionalID: "g", GroupID: "g", ProducerID: 1, Topics: map[string][]kafka.TxnOffsetCommit{"t": {{Partition: 0, Offset: 1}}}})
+			return err
+		}
+	case 29:
+		return func(ctx context.Context, tr *kafka.Transport) error {
+			_, err := cl(tr).DescribeACLs(ctx, &kafka.DescribeACLsRequest{Filter: kafka.ACLFilter{ResourceTypeFilter: kafka.ResourceTypeTopic, ResourceNameFilter: "t", ResourcePatternTypeFilter: kafka.PatternTypeLiteral,
+				Operation: kafka.ACLOperationTypeRead, PermissionType: kafka.ACLPermissionTypeAllow}})
+			return err
+		}
+	case 30:
+		return func(ctx context.Context, tr *kafka.Transport) error {
+			_, err := cl(tr).CreateACLs(ctx, &kafka.CreateACLsRequest{ACLs: []kafka.ACLEntry{{ResourceType: kafka.ResourceTypeTopic, ResourceName: "t", ResourcePatternType: kafka.PatternTypeLiteral, Principal: "User:u", Host: "*",
+				Operation: kafka.ACLOperationTypeRead, PermissionType: kafka.ACLPermissionTypeAllow}}})
+			return err
+		}
+	case 31:
+		return func(ctx context.Context, tr *kafka.Transport) error {
+			_, err := cl(tr).DeleteACLs(ctx, &kafka.DeleteACLsRequest{Filters: []kafka.DeleteACLsFilter{{ResourceTypeFilter: kafka.ResourceTypeTopic, ResourceNameFilter: "t", ResourcePatternTypeFilter: kafka.PatternTypeLiteral,
+				Operation: kafka.ACLOperationTypeRead, PermissionType: kafka.ACLPermissionTypeAllow}}})
+			return err
+		}
+	case 32:
+		return func(ctx context.Context, tr *kafka.Transport) error {
+			_, err := cl(tr).DescribeConfigs(ctx, &kafka.DescribeConfigsRequest{Resources: []kafka.DescribeConfigRequestResource{{ResourceType: kafka.ResourceTypeTopic, ResourceName: "t"}}, IncludeSynonyms: true, IncludeDocumentation: true})
+			return err
+		}
+	case 33:
+		return func(ctx context.Context, tr *kafka.Transport) error {
+			_, err := cl(tr).AlterConfigs(ctx, &kafka.AlterConfigsRequest{Resources: []kafka.AlterConfigRequestResource{{ResourceType: kafka.ResourceTypeTopic, ResourceName: "t", Configs: []kafka.AlterConfigRequestConfig{{Name: "a", Value: "b"}}}}})
+			return err
+		}
+	case 37:
+		return func(ctx context.Context, tr *kafka.Transport) error {
+			_, err := cl(tr).CreatePartitions(ctx, &kafka.CreatePartitionsRequest{Topics: []kafka.TopicPartitionsConfig{{Name: "t", Count: 2}}})
+			return err
+		}
+	case 43:
+		return func(ctx context.Context, tr *kafka.Transport) error {
+			_, err := cl(tr).ElectLeaders(ctx, &kafka.ElectLeadersRequest{Topic: "t", Partitions: []int{0}, Timeout: time.Second})
+			return err
+		}
+	case 44:
+		return func(ctx context.Context, tr *kafka.Transport) error {
+			_, err := cl(tr).IncrementalAlterConfigs(ctx, &kafka.IncrementalAlterConfigsRequest{Resources: []kafka.IncrementalAlterConfigsRequestResource{{ResourceType: kafka.ResourceTypeTopic, ResourceName: "t",
+				Configs: []kafka.IncrementalAlterConfigsRequestConfig{{Name: "a", Value: "b", ConfigOperation: kafka.ConfigOperationSet}}}}})
+			return err
+		}
+	case 45:
+		return func(ctx context.Context, tr *kafka.Transport) error {
+			_, err := cl(tr).AlterPartitionReassignments(ctx, &kafka.AlterPartitionReassignmentsRequest{Topic: "t", Assignments: []kafka.AlterPartitionReassignmentsRequestAssignment{{PartitionID: 0, BrokerIDs: []int{1}}}, Timeout: time.Second})
+			return err
+		}
+	case 46:
+		return func(ctx context.Context, tr *kafka.Transport) error {
+			_, err := cl(tr).ListPartitionReassignments(ctx, &kafka.ListPartitionReassignmentsRequest{Topics: map[string]kafka.ListPartitionReassignmentsRequestTopic{"t": {PartitionIndexes: []int{0}}}, Timeout: time.Second})
+			return err
+		}
+	case 47:
+		return func(ctx context.Context, tr *kafka.Transport) error {
+			_, err := cl(tr).OffsetDelete(ctx, &kafka.OffsetDeleteRequest{GroupID: "g", Topics: map[string][]int{"t": {0}}})
+			return err
+		}
+	case 48:
+		return func(ctx context.Context, tr *kafka.Transport) error {
+			_, err := cl(tr).DescribeClientQuotas(ctx, &kafka.DescribeClientQuotasRequest{Components: []kafka.DescribeClientQuotasRequestComponent{{EntityType: "client-id", MatchType: 0, Match: "c"}}})
+			return err
+		}
+	case 49:
+		return func(ctx context.Context, tr *kafka.Transport) error {
+			_, err := cl(tr).AlterClientQuotas(ctx, &kafka.AlterClientQuotasRequest{Entries: []kafka.AlterClientQuotaEntry{{Entities: []kafka.AlterClientQuotaEntity{{EntityType: "client-id", EntityName: "c"}},
+				Ops: []kafka.AlterClientQuotaOps{{Key: "producer_byte_rate", Value: 1000}}}}})
+			return err
+		}
+	case 50:
+		return func(ctx context.Context, tr *kafka.Transport) error {
+			_, err := cl(tr).DescribeUserScramCredentials(ctx, &kafka.DescribeUserScramCredentialsRequest{Users: []kafka.UserScramCredentialsUser{{Name: "u"}}})
+			return err
+		}
+	case 51:
+		return func(ctx context.Context, tr *kafka.Transport) error {
+			_, err := cl(tr).AlterUserScramCredentials(ctx, &kafka.AlterUserScramCredentialsRequest{Deletions: []kafka.UserScramCredentialsDeletion{{Name: "u", Mechanism: kafka.ScramMechanismSha256}}})
+			return err
+		}
 	}
 	return nil
 }
